@@ -1147,6 +1147,18 @@ class _Srcs:
         return None
 
 
+def _presence_test(text, markers):
+    """Is a branch literal / test (normalised text) only the question whether a source is there / has elements?"""
+    text = text.strip()
+    while text.startswith("not "):
+        text = text[4:].strip()
+    for m in markers:
+        if text in (m, "len(%s)" % m, "bool(%s)" % m, "%s is None" % m, "%s is not None" % m, "len(%s) > 0" % m, "len(%s) == 0" % m, "0 == len(%s)" % m,
+                    "len(%s) != 0" % m, "0 < len(%s)" % m, "len(%s) >= 1" % m) or text.startswith(m + " in ") or text.startswith(m + " not in "):
+            return True
+    return False
+
+
 def _elem_expr(fa, e, at, env, src, srcs):
     """An element expression of a comprehension / accumulating loop over the placeholders: bound variables replaced
     by what they denote, other temporaries by their definition, `SRC[key]` / `SRC.get(key)` read as the element's
@@ -1251,7 +1263,7 @@ def _accumulated(fa, text, dstmt, dvalue, srcs, depth):
     lc, dc = fa.conditions(loop), fa.conditions(dstmt)
     if lc is None or dc is None:
         return None
-    lc = {frozenset(l for l in c if not any(mk in l[0] for mk in srcs.markers)) for c in lc}
+    lc = {frozenset(l for l in c if not _presence_test(l[0], srcs.markers)) for c in lc}
     if lc != dc:
         return None
     mid, hid, did = fa.nodes(m), fa.nodes(loop), fa.nodes(dstmt)
@@ -1325,6 +1337,16 @@ def _image(fa, e, at, env, srcs, depth=8):
             return _keyed(_Image(it.src, "map", ex(e.key), ex(e.value), it.ordered, total, why), srcs)
         ordered = it.ordered and not isinstance(e, ast.SetComp)
         return _Image(it.src, "seq", None, ex(e.elt), ordered, total, why if ordered or why else "a set has no order")
+    if isinstance(e, ast.IfExp) or (isinstance(e, ast.BoolOp) and isinstance(e.op, ast.Or) and len(e.values) == 2):
+        # `IMAGE if <the source is there> else {}` / `IMAGE or {}`: without elements the image is the empty container anyway
+        a_, b_ = (e.body, e.orelse) if isinstance(e, ast.IfExp) else e.values
+        empty = lambda x: _is_empty_dict(x) or _is_empty_list(x) or (isinstance(x, ast.Tuple) and not x.elts)
+        about_src = isinstance(e, ast.BoolOp) or _presence_test(A.norm(e.test), srcs.markers)
+        if about_src and empty(b_):
+            return rec(a_)
+        if about_src and empty(a_) and isinstance(e, ast.IfExp):
+            return rec(b_)
+        return None
     if isinstance(e, ast.Subscript) and isinstance(e.slice, ast.Slice):
         x = rec(e.value)
         if x is None or x.kind != "seq":
@@ -1496,7 +1518,7 @@ def check_nested_dumps(ck, R, reads_of):
                     break
                 if en.conditional:
                     conds = td.conditions(en.stmt)
-                    if conds is None or any(src not in t for c in conds for (t, _p) in c):
+                    if conds is None or any(not _presence_test(t, srcs.markers) for c in conds for (t, _p) in c):
                         why = "the entry %r is only written under a condition that is not about %s" % (en.key, src)
                         break
                 if kind == "one":
